@@ -329,7 +329,7 @@ MC_CONFIGS = {
     "train":   (_sets(["pd", "npd", "ts1", "its1", "ts2", "burst", "idle", "rec"]), "{3}", 3, "{}", "{TRUE}"),
     "hot":     (_sets(["pd", "ts1", "ts2", "burst", "idle", "hot", "loop"]), "{3}", 3, "{}", "{TRUE}"),
     "scr":     (_sets(["pd", "ts1", "ts2", "burst", "idle", "nscr"]), "{3}", 3, '{"dscr"}', "{TRUE}"),
-    "lfps":    (_sets(["pd", "lfps", "ts1"]), "{0, 2, 3, 4, 5}", 0, '{"phy"}', "{TRUE, FALSE}"),
+    "lfps":    (_sets(["pd", "lfps", "ts1"]), "{0, 3, 4, 5}", 0, '{"phy"}', "{TRUE, FALSE}"),
     "strict":  (_sets(["pd", "lfps", "ts1", "ts2", "burst", "idle"]), "{0, 3, 4, 5}", 0, "{}", "{FALSE}"),
     "pairs":   (_sets(["pd", "ts1", "ts2", "burst", "idle", "hot", "rec"],
                       [("ts1", "ts2"), ("burst", "ts2"), ("burst", "ts1"), ("idle", "hot"), ("ts2", "hot"), ("burst", "idle"),
@@ -696,7 +696,7 @@ def check_C41(rep):
         cfg, consts = mc_cfg(name)
         mc_jobs[name] = (pool.submit(tlc.model_check, SPEC_DIR, "MCLtssm", cfg, 2 if quick else 4, 3000), consts)
     tour_job = pool.submit(_run_tour)
-    nsim = (24, 16, 50) if quick else (400, 300, 80)
+    nsim = (20, 12, 50) if quick else (400, 300, 80)
     sim_jobs = [("clean", pool.submit(simulate_scripts, "SimClean", nsim[0], nsim[2], seed * 11 + 1)),
                 ("race", pool.submit(simulate_scripts, "SimAny", nsim[1], nsim[2], seed * 13 + 5))]
 
